@@ -362,7 +362,8 @@ class Stream(object):
             if file_is_async:
                 yield from file.drain()
 
-        response.fields.parse(trailer_data)
+        # Be as lenient as with the header fields: ignore malformed lines
+        response.fields.parse(trailer_data, strict=False)
 
     @classmethod
     def get_read_strategy(cls, response):
